@@ -58,7 +58,7 @@ def case_laws(H, g):
         allv = names_of(xs + ys + zs + ps + hs)
         n = GDIM[g]
 
-        def mk_replay(fn, oracle, tol=1e-6):
+        def mk_replay(fn, oracle, tol=1e-6, relative=False):
             def run_concrete(env):
                 X = pp.LieTensor(normalize_group(g, tensor_from_env(names_of(xs), env)), ltype=GTYPE[g])
                 Y = pp.LieTensor(normalize_group(g, tensor_from_env(names_of(ys), env)), ltype=GTYPE[g])
@@ -72,10 +72,10 @@ def case_laws(H, g):
                 o = fn(X, Y, Z, p3, p4)
                 o = o.tensor() if isinstance(o, pp.LieTensor) else o
                 return o.reshape(-1).tolist(), env2
-            return generic_replay(run_concrete, oracle, ctx.tfvar, allv, tol)
+            return generic_replay(run_concrete, oracle, ctx.tfvar, allv, tol, relative=relative)
 
-        def eqs(name, lhs, rhs, fn, needs_rel=True, tol=1e-6):
-            rp = mk_replay(fn, rhs, tol)
+        def eqs(name, lhs, rhs, fn, needs_rel=True, tol=1e-6, relative=False):
+            rp = mk_replay(fn, rhs, tol, relative)
             for i, (l, rr) in enumerate(zip(lhs, rhs)):
                 nm = 'C03/%s/%s[%d]' % (g, name, i)
                 H.certify(nm, l, rr, rels, key='C03/%s/%s' % (g, name), replay=rp, hyps=hyp)
@@ -105,6 +105,10 @@ def case_laws(H, g):
             eqs('translation()', r['trans'], t, lambda X, Y, Z, p3, p4: X.translation())
         if s is not None:
             eqs('scale()', r['scale'], [s], lambda X, Y, Z, p3, p4: X.scale())
+            # scales multiply / invert - for EVERY positive scale, however small (a replayed candidate is judged by relative error)
+            sy_ = parts(g, ys)[2]
+            eqs('scale(X@Y)==scale(X)*scale(Y)', [parts(g, r['xy'])[2]], [s * sy_], lambda X, Y, Z, p3, p4: (X @ Y).scale(), relative=True)
+            eqs('scale(Inv X)==1/scale(X)', [parts(g, r['inv'])[2]], [1 / s], lambda X, Y, Z, p3, p4: X.Inv().scale(), relative=True)
         # Act = matrix multiplication (3-vectors are points: homogeneous coordinate 1)
         a3 = T.mv(MX, ps + [z3.RealVal(1)])[:3]
         eqs('Act3', r['act3'], a3, lambda X, Y, Z, p3, p4: X.Act(p3))
